@@ -6,9 +6,11 @@ package deletionstate
 // ---------------------------------------------------------------------------------------------
 // C15: the set queued ∪ deleted only grows; Delete moves an id from queued to deleted; exists /
 // Filter answer exactly membership in that union.
+//@ ghost updFailed (Array Str Bool) stable
 //@ func (*objectDeletionState).updateStatus
 //@   trusted
 //@   modifies nothing
+//@   sets updFailed = upd(updFailed, id, err != nil)
 //@ func field objectDeletionState.stateUpdateObservers
 //@   modifies nothing
 
@@ -34,10 +36,18 @@ package deletionstate
 
 // queueing ids for deletion never removes a known id and never touches the deleted set (stated as
 // the invariant of the queueing loop: the observers called afterwards are arbitrary callbacks)
+// (the deferred epilogue of Add unlocks and notifies the observers, which are assumed not to write the
+// deletion state - same assumption as for the observer field above)
+//@ func (*objectDeletionState).Add$1
+//@   trusted
+//@   modifies nothing
 //@ func (*objectDeletionState).Add
 //@   requires st != nil
 //@   assumes st.queued != nil && st.queued != st.deleted && ids != st.queued && ids != st.deleted
+//@   ensures [every_given_id_is_tracked] forall k string :: old(k in ids) ==> (k in st.deleted) || (k in st.queued) || sel(updFailed, k)
 //@   loop 0:
 //@     invariant forall k string :: old((k in st.deleted) || (k in st.queued)) ==> ((k in st.deleted) || (k in st.queued))
 //@     invariant forall k string :: old(k in st.deleted) <==> (k in st.deleted)
 //@     invariant st.queued == old(st.queued) && st.deleted == old(st.deleted)
+//@     invariant [every_visited_id_is_tracked] forall k string :: visited(k) ==> (k in st.deleted) || (k in st.queued) || sel(updFailed, k)
+//@     invariant forall k string :: (k in ids) <==> atloop(k in ids)
